@@ -37,7 +37,7 @@ RAGGED = {
     "xyz": ["natoms"],
     "lammpstrj": ["natoms"],
     "gro": ["natoms"],
-    "pdb": [],
+    "pdb": ["natoms"],
     "dtr": ["natoms"],
 }
 
